@@ -412,6 +412,9 @@ class Ctx:
         if m:
             r.generated = int(m.group(1).replace(",", ""))
             r.distinct = int(m.group(2).replace(",", ""))
+        m = re.search(r"The number of states generated: (\d+)", out)    # -simulate
+        if m and not r.generated:
+            r.generated = int(m.group(1))
         m = re.search(r"depth of the complete state graph search is (\d+)", out)
         if m:
             r.depth = int(m.group(1))
@@ -427,7 +430,7 @@ class Ctx:
         else:
             raise InfraError("TLC failed rc=%s on %s/%s\n%s" % (rc, module, cfg, (out + err)[-4000:]))
         log("tlc %s/%s: %d distinct, %d generated, rc=%s, %.1fs" % (module, os.path.basename(cfg), r.distinct, r.generated, rc, r.wall))
-        self.models.append(dict(module=module, cfg=os.path.basename(cfg), states=r.distinct,
+        self.models.append(dict(module=module, cfg=os.path.basename(cfg), mode="simulate" if simulate else "exhaustive", states=r.distinct,
                                 transitions=r.generated, depth=r.depth, ok=r.ok, wall_s=round(r.wall, 1),
                                 actions_never_taken=[a for a, (d, g) in r.coverage.items() if g == 0]))
         return r
@@ -702,7 +705,7 @@ class Ctx:
                 "model_drift_records": len(self.drift),
                 "faults_observed": self.faults,
                 "known_findings_reproduced": {k: v[1] for k, v in known_hits.items()},
-                "exhaustive": all(m["ok"] for m in self.models) and bool(self.models),
+                "exhaustive": all(m["ok"] for m in self.models if m.get("mode") != "simulate") and any(m.get("mode") != "simulate" for m in self.models),
             },
             "assumptions": self.assumptions,
             "wall_s": round(time.time() - self.t0, 1),
